@@ -23,6 +23,13 @@ THEOREMS = [
     "Mashu.Discr.eligible_mono",
     "Mashu.Discr.noField_first",
     "Mashu.Discr.noField_none",
+    "Mashu.DiscrF.step_inv",
+    "Mashu.DiscrF.history_own",
+    "Mashu.DiscrF.runAt_eq",
+    "Mashu.DiscrF.multi_format_correct",
+    "Mashu.DiscrF.shared_registry_runs_parent_method",
+    "Mashu.DiscrF.per_format_registry_ok",
+    "Mashu.DiscrF.registry_pinned",
 ]
 RULE = (
     "history = interleaving of 'define class (parent, own tag or none)', 'create holder/decoder for root r' and 'decode input tagged t at root r' events; "
@@ -92,6 +99,17 @@ class World:
         c = dataclasses.dataclass(c, kw_only=True) if req or True else dataclasses.dataclass(c)
         self.cls[i] = c
         self.ids[c] = i
+
+    def bystander(self, n):
+        """an UNRELATED mixin hierarchy whose Config uses the very same Discriminator object"""
+        ns = {"__annotations__": {}, "Config": type("Config", (self.BaseConfig,), {"discriminator": self.discr})}
+        from mashumaro import DataClassDictMixin
+
+        name = f"W{self.idx}_B{n}"
+        c = type(name, (DataClassDictMixin,), ns)
+        c.__module__ = __name__
+        globals()[name] = c
+        dataclasses.dataclass(c)
 
     def make(self, root):
         """the holder class / decoder for decoding at `root`"""
@@ -217,7 +235,11 @@ def gen_history(rng, tier):
             if t:
                 tags[nxt] = t
         elif r < 0.45:
-            events.append({"m": rng.choice(roots if mode == "config" else list(parents))})
+            if mode != "config" and sub and rng.random() < 0.35:
+                # the Discriminator object is also used by the Config of an unrelated class (no effect expected)
+                events.append({"b": len(events)})
+            else:
+                events.append({"m": rng.choice(roots if mode == "config" else list(parents))})
         else:
             if rng.random() < 0.5:
                 root = 0
@@ -272,6 +294,9 @@ def real_history(ctx, h, idx):
     parents, reqs = {}, {}
     first_decode = {}
     late, maxdepth = False, 0
+    fmt_index = {"dict": 0, "json": 0 if h.get("flavour") == "json" else 1, "msgpack": 1}
+    meth = {0: "__mashumaro_from_dict__", 1: "__mashumaro_from_dict_json__" if h.get("flavour") == "orjson" else "__mashumaro_from_dict_msgpack__"}
+    own_trace = []
     try:
         for k, e in enumerate(h["events"]):
             if "d" in e:
@@ -283,6 +308,8 @@ def real_history(ctx, h, idx):
                 maxdepth = max(maxdepth, len(chain(parents, i)) - 1)
                 if any(r in chain(parents, i)[1:] or (r == i) for r in first_decode):
                     late = True
+            elif "b" in e:
+                w.bystander(e["b"])
             elif "m" in e:
                 w.make(e["m"])
             else:
@@ -301,6 +328,8 @@ def real_history(ctx, h, idx):
                     # a variant accepts when every required field of its chain is present
                     acc = [c[0] for c in classes if all((not reqs[a]) or f"f{a}" in d for a in chain(parents, c[0]))]
                     lines.append({"op": "discrnf", "classes": [list(c) for c in classes], "root": root, "subtypes": h["sub"], "supertypes": h["sup"], "accepts": acc})
+            if h["mode"] == "config" and "m" not in e and "b" not in e:
+                own_trace.append(sorted([i, fi] for i, c in w.cls.items() for fi, name in meth.items() if name in c.__dict__))
     except Exception as e:  # noqa
         w.close()
         case = {"history": h}
@@ -331,7 +360,48 @@ def real_history(ctx, h, idx):
                 elif "q" in e and e.get("fmt", "dict") == fm:
                     evs.append({"q": e["q"]})
             lines.append({"op": "discr", "subtypes": h["sub"], "supertypes": h["sup"], "events": evs})
-    return {"h": h, "real": real, "lines": lines, "fmts": fmts}
+    rec = {"h": h, "real": real, "lines": lines, "fmts": fmts}
+    if h["mode"] == "config" and h["field"]:
+        # the multi-format machine (Mashu.DiscrF): outcomes with "built by whose method" and, after every
+        # event, which classes have a method of their own for which format
+        evs = []
+        for e in h["events"]:
+            if "d" in e:
+                evs.append({"d": [e["d"][0], e["d"][1], model_tag(h, e["d"])]})
+            elif "q" in e:
+                evs.append({"q": [fmt_index[e.get("fmt", "dict")], e["q"][0], e["q"][1]]})
+        rec["lines"] = lines + [{"op": "discrf", "subtypes": h["sub"], "supertypes": h["sup"], "events": evs}]
+        rec["own_trace"] = own_trace
+    return rec
+
+
+def judge_formats(ctx, rec, mf):
+    """state-level correspondence with Mashu.DiscrF: per event the set of (class, format) with a method
+    of its own, and per decode "an instance of c built by c's own method" """
+    h = rec["h"]
+    case = {"history": h}
+    qs = [e for e in h["events"] if "q" in e]
+    for k, (o, r) in enumerate(zip(mf["outs"], rec["real"])):
+        if o.startswith("inst:"):
+            _i, c, b = o.split(":")
+            exp = f"inst:{c}" if c == b else "error:instance of"
+            if not r.startswith(exp):
+                ctx.disagreement({**case, "decode": k}, o, r, "discrf outcome")
+                return
+        elif o != r:
+            ctx.disagreement({**case, "decode": k}, o, r, "discrf outcome")
+            return
+    model_trace = [sorted({(a, b) for a, b in st}) for st in mf["compiled"]]
+    real_trace = [sorted({(a, b) for a, b in st}) for st in rec["own_trace"]]
+    # the model lists a state per define / decode event; holder-creation events ("m") are not model events
+    if len(model_trace) == len(real_trace):
+        for k, (a, b) in enumerate(zip(model_trace, real_trace)):
+            if [list(x) for x in a] != [list(x) for x in b]:
+                ctx.disagreement({**case, "event": k}, [list(x) for x in a], [list(x) for x in b], "discrf own-method sets")
+                return
+        ctx.bump("own-method traces compared")
+    else:
+        ctx.disagreement(case, len(model_trace), len(real_trace), "discrf trace length")
 
 
 def judge(ctx, rec, out):
@@ -339,6 +409,9 @@ def judge(ctx, rec, out):
     if any(o is None or "error" in o for o in out):
         ctx.obligation("model evaluates the history", False, str(out)[:300])
         return
+    if "own_trace" in rec:
+        judge_formats(ctx, rec, out[-1])
+        out = out[:-1]
     if h["field"]:
         # merge the per-format model runs back into event order
         fmts = rec["fmts"]
